@@ -132,7 +132,7 @@ class C05(Prop):
             ops = [["create", "b0", storegen.mk_meta(rng, "b0")], ["create", "b1", storegen.mk_meta(rng, "b1")],
                    ["bulk", "b1", evs], ["delbucket", "b1"], ["create", "b1", storegen.mk_meta(rng, "b1")],
                    ["insert", "b1", storegen.rand_ev(rng)], ["buckets"]]
-            for be in storelib.BACKENDS:
+            for be in ("sqlite", "peewee"):  # (the memory backend drops the whole list object; its inserts are quadratic)
                 out.append(("huge-bucket-recreate", {"backend": be, "ops": ops}))
         # a restart right after the buckets exist, then every kind of bucket and event operation on the existing buckets
         for i in range(ctx.pick(30, 400)):
